@@ -543,6 +543,12 @@ pub fn run(ctx: &Ctx) -> (Stats, Spec) {
     let cli_iters = ctx.tier.pick(60u64, 4_000u64);
     let parts = util::par_jobs(16, |job| cli_job(ctx, job, cli_iters));
     st.merge(crate::report::merge_all(parts));
+    // names that START with a character that is numeric but no decimal digit (letter numbers: Roman
+    // numerals, ideographic zero, Hangzhou numerals; vulgar fractions, superscripts, circled digits)
+    for t in ["Ⅷ & -a", "〇x | b", "ⅣA", "exists 〇x # [〇x, b] = 1", "〡 ^ 〢", "Ⅰ Ⅱ", "ⅷ <=> ⅷ", "½ & a", "a½", "² | b", "x²", "① & ②", "[Ⅷ, a] = 1", "[a] = Ⅷ", "lfp Ⅷ # Ⅷ | a", "٣ & a", "٣a", "a٣", "𝟙 | a", "𝟙x", "一 & 二", "𒐕 | a", "Ⅷ1", "1Ⅷ"] {
+        check_text(&mut st, t, true, "numeric-non-digit-characters");
+        st.bump("texts_with_numeric_non_digit_characters");
+    }
     for t in ["-(a b c", "-[a] 3 b", "- a & b", "-a & b", "- (a) b", "-(a", "!(a & b", "not [a] = 1 b", "exists a b # a", "exists , # a", "[,] = 1", "[a,,] = 1", "[a] = ", "if a then b", "lfp # a", "lfp a, b # a", "a & & b", "(a))", "a <=> <= b"] {
         check_text(&mut st, t, true, "negation-and-edge-cases");
     }
